@@ -54,6 +54,11 @@ def tasks(tier, seed):
             add("stale", 4, K, comp)
     for K in F.sample(fam4, 256 if tier == "thorough" else 10, seed, "c08r10"):
         add("stale", 4, K, "sam_apx_10")
+    # nine players (coalition ids need more than one byte), minimal knowledge: at minimal knowledge every split of a coalition is the
+    # same linear term, so the run stays small for the plain superadditive computers
+    add("stale", 9, [], "superadditive_cached")
+    if tier == "thorough":
+        add("stale", 9, [], "superadditive")
     for comp in COMPUTERS[:4]:
         for K in fam3:
             add("order", 3, K, comp)
